@@ -102,7 +102,7 @@ def _close_transitions(t, impl, expected):
     """Zone ops on a rule set with two transitions less than two days apart: the one-day probes of
     DisambiguatePossibleEpochNanoseconds / GetStartOfDay (the provider API offers no transition enumeration) can
     read the offset of the neighbouring transition."""
-    if not (t[0].startswith("tz_") or t[0].startswith("zdt_")) or not t[1].startswith("z:"):
+    if not (t[0].startswith("tz_") or t[0].startswith("zdt_") or t[0] in ("du_round_z", "du_total_z", "du_cmp_z", "du_zlaw")) or not t[1].startswith("z:"):
         return False
     ts = [x for x, _ in _zone(t[1])[1]]
     return any(b - a < 172800 for a, b in zip(ts, ts[1:]))
@@ -114,7 +114,7 @@ def _later_copy(t, impl, expected):
     and the date difference is zero: DifferenceZonedDateTime measures the time part from the *compatible* (earlier)
     resolution of the receiver's own reading, and add() of a duration without date part is exact instant addition,
     so add(until) overshoots by the length of the overlap. Specified behaviour (ECMAScript Temporal)."""
-    if t[0] not in ("zdt_law",) or not t[1].startswith("z:"):
+    if t[0] not in ("zdt_law", "du_zlaw") or not t[1].startswith("z:"):
         return False
     z = _zone(t[1])
     a = int(t[2])
